@@ -25,14 +25,10 @@ func apiPagingCheck(rep *Report, run *Run, g *Gen, s Setup, seed int64) {
 	conf.Set(config.APIListen, fmt.Sprintf("127.0.0.1:%d", port))
 	api := srv.NewAPIServer(conf, run.D.N)
 	stop := make(chan struct{})
-	done := api.Start(stop)
-	defer func() {
-		close(stop)
-		select {
-		case <-done:
-		case <-time.After(2 * time.Second):
-		}
-	}()
+	// the server is left running until the process ends: closing `stop` runs srv.Shutdown(nil),
+	// which dereferences its nil context whenever a keep-alive connection is still open (a
+	// shutdown-time crash outside the properties, see scen_api.go)
+	_ = api.Start(stop)
 	url := fmt.Sprintf("http://127.0.0.1:%d/v1", port)
 	up := false
 	for i := 0; i < 100; i++ {
